@@ -43,6 +43,19 @@ def dry_vs_real(task):
     world["opts"].pop("interactive", None)
     world["stdin"] = None
     world["opts"]["dryRun"] = True
+    link_paths = set()
+    ents = [e for e in world["meta"]["entries"] if not e.get("via_link")]
+    if ents and rng.random() < 0.25:
+        # an info file that is a symbolic link to the info file of a sibling entry
+        e = rng.choice(ents)
+        nodes = {n["p"]: n for n in world["nodes"]}
+        nm = rng.choice([b"zz-link", b"0-link", e["name"] + b"-link"])
+        ip, pp = e["tdir"] + b"/info/" + nm + b".trashinfo", e["tdir"] + b"/files/" + nm
+        if ip not in nodes and pp not in nodes and e["tdir"] + b"/info/" + e["name"] + b".trashinfo" in nodes:
+            nodes[ip] = {"p": ip, "k": "l", "target": e["name"] + b".trashinfo"}
+            nodes[pp] = {"p": pp, "k": "f", "data": b"payload of the linked info", "mode": 0o644, "mtime": 1000000400}
+            world["nodes"] = sorted(nodes.values(), key=lambda n: n["p"])
+            link_paths = {ip, pp}
     world["argv"] = cmd_argv(world)
     dry = run_world(world, {})
     w2 = dict(world)
@@ -66,7 +79,9 @@ def dry_vs_real(task):
     from ..model import phys_resolve
     printed_existing = {phys_resolve(before, absol(p)) for p in printed if phys_resolve(before, absol(p)) in before}
     ok = printed_existing == roots and snap_to_state(dry["after"]) == snap_to_state(dry["before"])
-    return {"skip": False, "ok": ok, "printed": len(printed), "removed": len(roots),
+    diff_ = (printed_existing - roots) | (roots - printed_existing)
+    return {"skip": False, "ok": ok, "printed": len(printed), "removed": len(roots), "symlinked_info": bool(link_paths),
+            "only_link_entries": bool(link_paths) and bool(diff_) and diff_ <= link_paths,
             "detail": None if ok else {"printed_not_removed": sorted(map(repr, printed_existing - roots))[:5],
                                        "removed_not_printed": sorted(map(repr, roots - printed_existing))[:5]}}
 
@@ -100,7 +115,8 @@ def run(tier, seed):
         n += 1
         ck.case(("dry-vs-real", n, r["printed"], r["removed"]), nontrivial=r["printed"] > 0, tags=["dry-vs-real"])
         if not r["ok"]:
-            ck.violation("dry-run-prints-what-real-removes", {"oracle": "dry-vs-real"}, r)
+            ck.violation("dry-run-prints-what-real-removes", {"oracle": "dry-vs-real", "symlinked_info": r.get("symlinked_info", False),
+                                                             "only_link_entries": r.get("only_link_entries", False)}, r)
     ck.extra["dry_vs_real_runs"] = n
     ck.exhaustive = False
     ck.extra["exhaustive_subdomains"] = ["parse_reply over all strings of length <= 2 of printable ASCII (9121 replies)"]
